@@ -34,6 +34,8 @@ def check_spelleq(run, vecs):
             why = "re-spelling parses to a different tree"
         elif ob["canon"]["exec_ok"] != ob["spelled"]["exec_ok"] or ob["canon"]["out"] != ob["spelled"]["out"]:
             why = "re-spelling renders differently"
+        elif not ob.get("inline_equal", True):
+            why = "re-spelling renders differently as an inline template of an auto-escaping environment"
         if why:
             seps = []
             s = bytes(v["spelled"])
